@@ -46,7 +46,10 @@ def softplus(x):
 
 
 def sigmoid(x):
-    return 0.5 * (1.0 + np.tanh(0.5 * x))
+    # stable in both tails (0.5*(1+tanh(x/2)) cancels for very negative x)
+    x = np.asarray(x, dtype=np.float64)
+    e = np.exp(-np.abs(x))
+    return np.where(x >= 0, 1.0 / (1.0 + e), e / (1.0 + e))
 
 
 def _tanh_d(x, xa):
